@@ -75,34 +75,30 @@ Qed.
 
 Lemma cfg_attrs_ok cfg user :
   cfg_texts_ok cfg = true ->
-  (forall u, user_default user = Some u ->
-             forallb (fun q => negb (ostr_eqb (fst q) (Some u))) (root_attr_qnames cfg) = true) ->
   Forall (am_entry_ok (user_default user)) (cfg_attrs cfg) /\ NoDup (map fst (cfg_attrs cfg)).
 Proof.
-  intros Ht Hd. unfold cfg_texts_ok in Ht. cbn [forallb] in Ht.
+  intros Ht. unfold cfg_texts_ok in Ht. cbn [forallb] in Ht.
   apply andb_true_iff in Ht as [H1 H2]. apply andb_true_iff in H2 as [H2 _].
-  assert (Hentry : forall q v, attr_name_ok q = true -> In q (root_attr_qnames cfg) ->
+  assert (Hentry : forall q v, attr_name_ok q = true ->
                                forallb is_xml_char v = true -> am_entry_ok (user_default user) (q, Some v)).
-  { intros q v Hq Hin Hv. split; [exact Hq|split; [|exists v; split; [reflexivity|exact Hv]]].
-    cbn [fst]. unfold u0_differs. destruct (user_default user) as [u|] eqn:Eu; [|reflexivity].
-    specialize (Hd u eq_refl). rewrite forallb_forall in Hd. exact (Hd q Hin). }
-  unfold cfg_attrs, root_attr_qnames in *.
+  { intros q v Hq Hv. split; [exact Hq|exists v; split; [reflexivity|exact Hv]]. }
+  unfold cfg_attrs in *.
   destruct (cfg_schema_location cfg) as [v1|]; destruct (cfg_no_ns_schema_location cfg) as [v2|];
     repeat match goal with
            | H : _ && negb _ = true |- _ => apply andb_true_iff in H as [H _]
            end.
   - split.
     + apply Forall_forall. intros x Hx. apply am_set_In in Hx as [Hx|Hx].
-      * subst x. apply Hentry; [reflexivity|right; left; reflexivity|exact H2].
-      * apply am_set_In in Hx as [Hx|[]]. subst x. apply Hentry; [reflexivity|left; reflexivity|exact H1].
+      * subst x. apply Hentry; [reflexivity|exact H2].
+      * apply am_set_In in Hx as [Hx|[]]. subst x. apply Hentry; [reflexivity|exact H1].
     + apply am_set_nodup, am_set_nodup. constructor.
   - split.
     + apply Forall_forall. intros x Hx. apply am_set_In in Hx as [Hx|[]]. subst x.
-      apply Hentry; [reflexivity|left; reflexivity|exact H1].
+      apply Hentry; [reflexivity|exact H1].
     + apply am_set_nodup. constructor.
   - split.
     + apply Forall_forall. intros x Hx. apply am_set_In in Hx as [Hx|[]]. subst x.
-      apply Hentry; [reflexivity|left; reflexivity|exact H2].
+      apply Hentry; [reflexivity|exact H2].
     + apply am_set_nodup. constructor.
   - split; constructor.
 Qed.
@@ -150,34 +146,22 @@ Proof.
   apply forallb_forall. intros k Hk. rewrite Forall_forall in IH. exact (IH k Hk).
 Qed.
 
-Definition t_u0 (u0 : option str) : item -> bool :=
-  match u0 with Some u => t_default_not_on_attr u | None => fun _ => true end.
-
 Lemma wf_guard_of u0 t :
-  t_names_ok t = true -> t_texts_ok t = true -> t_attrs_present t = true ->
-  t_u0 u0 t = true -> wf_guard u0 t = true.
+  t_names_ok t = true -> t_texts_ok t = true -> t_attrs_present t = true -> wf_guard u0 t = true.
 Proof.
-  intros H1 H2 H4 H5. pose proof (all_nodes_true t) as H3.
-  assert (H5' : all_nodes (fun _ ats _ => forallb (fun a => u0_differs u0 (fst (fst a))) ats) (fun _ => true) t = true).
-  { unfold t_u0 in H5. destruct u0 as [u|]; [exact H5|].
-    clear. induction t as [v|q ats ks IH] using item_ind2; cbn [all_nodes]; [reflexivity|].
-    apply andb_true_iff. split; [apply forallb_forall; intros; reflexivity|].
-    apply forallb_forall. intros k Hk. rewrite Forall_forall in IH. exact (IH k Hk). }
-  pose proof (all_nodes_conj _ _ _ _ _ H1 (all_nodes_conj _ _ _ _ _ H2 (all_nodes_conj _ _ _ _ _ H3
-                (all_nodes_conj _ _ _ _ _ H4 H5')))) as H.
+  intros H1 H2 H4.
+  pose proof (all_nodes_conj _ _ _ _ _ H1 (all_nodes_conj _ _ _ _ _ H2 H4)) as H.
   unfold wf_guard. revert H. apply all_nodes_impl.
   - intros q ats ks Hn. unfold node_wf.
-    apply andb_true_iff in Hn as [Hn1 Hn]. apply andb_true_iff in Hn as [Hn2 Hn].
-    apply andb_true_iff in Hn as [_ Hn]. apply andb_true_iff in Hn as [Hn4 Hn5].
+    apply andb_true_iff in Hn as [Hn1 Hn]. apply andb_true_iff in Hn as [Hn2 Hn4].
     apply andb_true_iff in Hn1 as [Hn1 A3]. apply andb_true_iff in Hn1 as [A1 A2].
     rewrite A1. cbn [andb]. apply forallb_forall. intros a Ha.
-    rewrite forallb_forall in A2, A3, Hn2, Hn4, Hn5.
-    apply andb_true_iff; split; [apply andb_true_iff; split; [apply andb_true_iff; split; [apply andb_true_iff; split|]|]|].
+    rewrite forallb_forall in A2, A3, Hn2, Hn4.
+    apply andb_true_iff; split; [apply andb_true_iff; split; [apply andb_true_iff; split|]|].
     + exact (A2 a Ha).
     + rewrite <- value_names_ok_qnames. exact (A3 a Ha).
     + exact (Hn2 a Ha).
     + exact (Hn4 a Ha).
-    + exact (Hn5 a Ha).
   - intros v Hv. unfold data_wf.
     apply andb_true_iff in Hv as [Hv1 Hv]. apply andb_true_iff in Hv as [Hv2 _].
     rewrite <- value_names_ok_qnames, Hv1. unfold value_texts_ok. rewrite Hv2. reflexivity.
@@ -257,7 +241,7 @@ Lemma guard_unpack cfg user evs :
 Proof.
   unfold writer_guard, user_map_ok, events_ok. intros H.
   apply andb_true_iff in H as [Hu He].
-  apply andb_true_iff in Hu as [Hu Hdq]. apply andb_true_iff in Hu as [Hleg Hda].
+  apply andb_true_iff in Hu as [Hleg Hdq].
   apply andb_true_iff in He as [He Hwf]. apply andb_true_iff in He as [He Hck].
   apply andb_true_iff in He as [He Hnil]. apply andb_true_iff in He as [He Hlate].
   apply andb_true_iff in He as [He Hadj].
@@ -271,12 +255,9 @@ Proof.
   - exact Et.
   - apply user_minv; assumption.
   - exact Hcfg.
-  - apply cfg_attrs_ok; [exact Hcfg|]. intros u Hud. unfold default_not_on_attr in Hda. rewrite Hud in Hda.
-    apply andb_true_iff in Hda as [_ Hda]. exact Hda.
+  - apply cfg_attrs_ok. exact Hcfg.
   - apply item_ok_of; assumption.
-  - apply wf_guard_of; try assumption.
-    unfold t_u0, default_not_on_attr in *. destruct (user_default user) as [u|]; [|reflexivity].
-    apply andb_true_iff in Hda as [Hda _]. unfold on_tree in Hda. rewrite Et in Hda. exact Hda.
+  - apply wf_guard_of; assumption.
   - exact Hnil.
   - exact Hck.
   - exact Hadj.
@@ -376,47 +357,40 @@ Qed.
 
 Lemma cfg_xats_ok cfg user :
   cfg_texts_ok cfg = true ->
-  (forall u, user_default user = Some u ->
-             forallb (fun q => negb (ostr_eqb (fst q) (Some u))) (root_attr_qnames cfg) = true) ->
   forallb (sattr_ok (user_default user)) (cfg_xats cfg) = true
   /\ has_nil (cfg_xats cfg) = false
   /\ forallb (fun a => negb (value_none (snd a))) (cfg_xats cfg) = true
   /\ (forall q, forallb (fun a => dq_value (user_default user) q (attr_conv a)) (cfg_xats cfg) = true).
 Proof.
-  intros Ht Hd. unfold cfg_texts_ok in Ht. cbn [forallb] in Ht.
+  intros Ht. unfold cfg_texts_ok in Ht. cbn [forallb] in Ht.
   apply andb_true_iff in Ht as [H1 H2]. apply andb_true_iff in H2 as [H2 _].
   assert (Hone : forall qa v, attr_name_ok qa = true -> qname_eqb qa q_xsi_nil_m = false ->
-                              In qa (root_attr_qnames cfg) ->
                               forallb is_xml_char v = true -> startswith [c_lbrace] v = false ->
                               sattr_ok (user_default user) (qa, VAtom (AText v)) = true
                               /\ (forall q, dq_value (user_default user) q (attr_conv (qa, VAtom (AText v))) = true)).
-  { intros qa v Hq _ Hin Hv Hb. unfold sattr_ok, attr_conv. cbn [fst snd]. rewrite (conv_plain_text qa v Hb).
+  { intros qa v Hq _ Hv Hb. unfold sattr_ok, attr_conv. cbn [fst snd]. rewrite (conv_plain_text qa v Hb).
     split.
     - rewrite Hq. cbn [value_names_ok value_atoms forallb atom_names_ok atom_qnames value_texts_ok value_texts flat_map app value_none negb andb].
-      rewrite Hv. cbn [andb].
-      assert (Hu : u0_differs (user_default user) (fst qa) = true).
-      { unfold u0_differs. destruct (user_default user) as [u|] eqn:Eu; [|reflexivity].
-        specialize (Hd u eq_refl). rewrite forallb_forall in Hd. exact (Hd qa Hin). }
-      rewrite Hu. cbn [andb]. unfold clark_ok. cbn [fst snd].
+      rewrite Hv. cbn [andb]. unfold clark_ok. cbn [fst snd].
       destruct (existsb (str_eqb v) datatype_qnames) eqn:Ed; [|rewrite orb_true_r; reflexivity].
       apply in_datatype_clark in Ed. congruence.
     - intros q. unfold dq_value. destruct (user_default user); [|reflexivity].
       destruct (fst q) as [[|x r]|]; reflexivity. }
   set (q1 := split_qname qn_xsi_schema_location) in *.
   set (q2 := split_qname qn_xsi_no_namespace_schema_location) in *.
-  unfold cfg_xats, root_attr_qnames in *. fold q1 q2 in Hone |- *.
+  unfold cfg_xats in *. fold q1 q2.
   destruct (cfg_schema_location cfg) as [v1|]; destruct (cfg_no_ns_schema_location cfg) as [v2|];
     cbn [app forallb has_nil existsb fst snd].
   - apply andb_true_iff in H1 as [C1 B1]. apply negb_true_iff in B1.
     apply andb_true_iff in H2 as [C2 B2]. apply negb_true_iff in B2.
-    destruct (Hone q1 v1 eq_refl eq_refl (or_introl eq_refl) C1 B1) as [A1 A2].
-    destruct (Hone q2 v2 eq_refl eq_refl (or_intror (or_introl eq_refl)) C2 B2) as [A3 A4].
+    destruct (Hone q1 v1 eq_refl eq_refl C1 B1) as [A1 A2].
+    destruct (Hone q2 v2 eq_refl eq_refl C2 B2) as [A3 A4].
     rewrite A1, A3. repeat split; try reflexivity. intros q. rewrite A2, A4. reflexivity.
   - apply andb_true_iff in H1 as [C1 B1]. apply negb_true_iff in B1.
-    destruct (Hone q1 v1 eq_refl eq_refl (or_introl eq_refl) C1 B1) as [A1 A2].
+    destruct (Hone q1 v1 eq_refl eq_refl C1 B1) as [A1 A2].
     rewrite A1. repeat split; try reflexivity. intros q. rewrite A2. reflexivity.
   - apply andb_true_iff in H2 as [C2 B2]. apply negb_true_iff in B2.
-    destruct (Hone q2 v2 eq_refl eq_refl (or_introl eq_refl) C2 B2) as [A1 A2].
+    destruct (Hone q2 v2 eq_refl eq_refl C2 B2) as [A1 A2].
     rewrite A1. repeat split; try reflexivity. intros q. rewrite A2. reflexivity.
   - repeat split; reflexivity.
 Qed.
@@ -488,12 +462,7 @@ Lemma root_sguard cfg user evs q ats ks :
   /\ attrs_present (INode q (cfg_xats cfg ++ ats) ks) = true.
 Proof.
   intros F Hg.
-  assert (Hroot : forall u, user_default user = Some u ->
-                            forallb (fun q => negb (ostr_eqb (fst q) (Some u))) (root_attr_qnames cfg) = true).
-  { intros u Hu. unfold writer_guard, user_map_ok in Hg. apply andb_true_iff in Hg as [Hg _].
-    apply andb_true_iff in Hg as [Hg _]. apply andb_true_iff in Hg as [_ Hda].
-    unfold default_not_on_attr in Hda. rewrite Hu in Hda. apply andb_true_iff in Hda as [_ Hda]. exact Hda. }
-  destruct (cfg_xats_ok cfg user (gf_cfg _ _ _ _ F) Hroot) as [X1 [X2 [X3 X4]]].
+  destruct (cfg_xats_ok cfg user (gf_cfg _ _ _ _ F)) as [X1 [X2 [X3 X4]]].
   assert (Hdq : t_dq (user_default user) (INode q ats ks) = true).
   { unfold t_dq. pose proof (gf_dq _ _ _ _ F) as H. destruct (user_default user); [exact H|reflexivity]. }
   pose proof (sguard_of _ _ (gf_wf _ _ _ _ F) (gf_nil _ _ _ _ F) (gf_clark _ _ _ _ F) (gf_adj _ _ _ _ F)
@@ -506,11 +475,11 @@ Proof.
     unfold attrs_present, t_attrs_present. cbn [all_nodes]. apply andb_true_iff. split.
     + rewrite forallb_app, X3. cbn [andb]. unfold node_wf in Hnw. apply andb_true_iff in Hnw as [_ Hnw].
       apply forallb_forall. intros a Ha. rewrite forallb_forall in Hnw. specialize (Hnw a Ha).
-      apply andb_true_iff in Hnw as [Hnw _]. apply andb_true_iff in Hnw as [_ Hnw]. exact Hnw.
+      apply andb_true_iff in Hnw as [_ Hnw]. exact Hnw.
     + apply forallb_forall. intros k Hin. rewrite forallb_forall in Hkw. specialize (Hkw k Hin).
       revert Hkw. apply all_nodes_impl; [|tauto]. intros q' a' k' H. unfold node_wf in H.
       apply andb_true_iff in H as [_ H]. apply forallb_forall. intros a Ha. rewrite forallb_forall in H.
-      specialize (H a Ha). apply andb_true_iff in H as [H _]. apply andb_true_iff in H as [_ H]. exact H.
+      specialize (H a Ha). apply andb_true_iff in H as [_ H]. exact H.
 Qed.
 
 (* ------------------------------------------------------------------ C03, native writer *)
